@@ -20,7 +20,8 @@ func c07HasSuffix(s, suf string) bool {
 
 func c07Policy(a RemoteSource) {
 	typ := a.Package().SourceType()
-	u := a.Package().URL()
+	pkg := a.Package()
+	u := pkg.URL()
 	verif.Assert("known-source-type", typ == "git" || typ == "http" || typ == "https")
 	if typ == "git" {
 		verif.Assert("git-uses-https-or-ssh", u.Scheme == "https" || u.Scheme == "ssh")
